@@ -15,10 +15,10 @@ Proof. intros. unfold nbp. rewrite filter_app, app_length. cbn. destruct (is_bp 
    further cont(): the quantity that must fit into the channel when the controller sits in join *)
 Definition pot (s : state) : nat :=
   if is_done s then
-    match p_pc s with PLock _ _ _ | PSend _ _ _ | PFinalSend _ => 1 | _ => 0 end
+    match p_pc s with PLock _ _ _ | PHeld _ _ _ | PSend _ _ _ | PFinalSend _ => 1 | _ => 0 end
   else
     match p_pc s with
-    | PStart _ _ | PLoad _ _ | PLock _ _ _ | PSend _ _ _ => 1 + Nat.b2n (token s)
+    | PStart _ _ | PLoad _ _ | PLock _ _ _ | PHeld _ _ _ | PSend _ _ _ => 1 + Nat.b2n (token s)
     | PPark _ _ => Nat.b2n (token s)
     | PFinal _ | PFinalSend _ => 1
     | _ => 0
@@ -85,7 +85,7 @@ Definition in_run (s : state) : option bool :=   (* Some d inside run() before t
 Definition fit_inv (s : state) : Prop :=
   (in_run s = Some true -> undisc s = false -> length (chan s) + pot s <= 1) /\
   (match c_pc s, p_pc s with
-   | RJoin _ _ _, PLock _ _ _ | RJoin _ _ _, PSend _ _ _ | RJoin _ _ _, PPark _ _ => kicks s >= 1 -> token s = true
+   | RJoin _ _ _, PLock _ _ _ | RJoin _ _ _, PHeld _ _ _ | RJoin _ _ _, PSend _ _ _ | RJoin _ _ _, PPark _ _ => kicks s >= 1 -> token s = true
    | _, _ => True
    end).
 
